@@ -77,6 +77,20 @@ Proof.
   rewrite <- (sum_n_scale_r RL). apply sum_n_ext. intros j _. fold (vscale v a). rewrite nth_vscale. ring.
 Qed.
 
+Lemma dtmulv_add (E : nat -> nat -> T) r c (u v : list T) : length u = length v ->
+  dtmulv E r c (zipw add u v) = zipw add (dtmulv E r c u) (dtmulv E r c v).
+Proof.
+  intros Hl. unfold dtmulv. rewrite <- map_zipw_add. apply map_ext. intros j.
+  rewrite <- (sum_n_add RL). apply sum_n_ext. intros i _. rewrite nth_zipw_add by auto. ring.
+Qed.
+
+Lemma dtmulv_scale (E : nat -> nat -> T) r c (v : list T) a :
+  dtmulv E r c (vscale v a) = vscale (dtmulv E r c v) a.
+Proof.
+  unfold dtmulv, vscale. rewrite map_map. apply map_ext. intros j.
+  rewrite <- (sum_n_scale_r RL). apply sum_n_ext. intros i _. fold (vscale v a). rewrite nth_vscale. ring.
+Qed.
+
 (* only the entries inside the r x c window matter *)
 Lemma dmulv_ext (E E' : nat -> nat -> T) r c x :
   (forall i j, i < r -> j < c -> E i j = E' i j) -> dmulv E r c x = dmulv E' r c x.
@@ -122,6 +136,25 @@ Proof.
     rewrite (sp_mul_spec_lemma RL) in Ex by (auto; lia). injection Ex as <-.
     rewrite (sp_tmul_spec_lemma RL) in Ey by (auto; lia). injection Ey as <-.
     apply (dense_adjoint RL); lia.
+Qed.
+
+(* transpose_multiply of a well-formed square storage is a linear operator too *)
+Theorem sp_tmul_LinOp (s : sparse A) n : wfS s -> sp_rows s = n -> sp_cols s = n -> LinOp n (sp_tmul s).
+Proof.
+  intros Hwf Hr Hc. split.
+  - intros v Hv. exists (sp_tapply s v). split.
+    + apply (sp_tmul_spec_lemma RL); auto. lia.
+    + unfold sp_tapply. now rewrite dtmulv_length.
+  - intros u v a b Hu Hv Ea Eb.
+    rewrite (sp_tmul_spec_lemma RL) in Ea, Eb by (auto; lia). injection Ea as <-. injection Eb as <-.
+    rewrite (sp_tmul_spec_lemma RL); auto.
+    + f_equal. apply (dtmulv_add RL). lia.
+    + rewrite zipw_len; lia.
+  - intros c v a Hv Ea.
+    rewrite (sp_tmul_spec_lemma RL) in Ea by (auto; lia). injection Ea as <-.
+    rewrite (sp_tmul_spec_lemma RL); auto.
+    + f_equal. apply (dtmulv_scale RL).
+    + rewrite vscale_len. lia.
 Qed.
 
 Lemma sp_mul_Ok_inv (s : sparse A) x ax : wfS s -> length x = sp_cols s -> sp_mul s x = Ok ax -> ax = sp_apply s x.
